@@ -44,10 +44,15 @@ def candidate_relation(ref, hint):
 
 
 def gen_params(scratch, name, **kw):
-    src = ['//go:build verif', '', 'package lexer', '', 'const (']
+    """Harness parameters (bounds) as Go declarations: ints become constants, lists become slices."""
+    src = ['//go:build verif', '', 'package lexer', '']
     for k, v in kw.items():
-        src.append('\t%s = %s' % (k, v))
-    src.append(')')
+        if isinstance(v, list) and v and isinstance(v[0], str):
+            src.append('var %s = []string{%s}' % (k, ', '.join(gogen.go_str(x) for x in v)))
+        elif isinstance(v, list):
+            src.append('var %s = []int{%s}' % (k, ', '.join(str(x) for x in v)))
+        else:
+            src.append('const %s = %s' % (k, v))
     path = scratch.path(name)
     with open(path, 'w') as f:
         f.write('\n'.join(src) + '\n')
@@ -66,7 +71,13 @@ def gen_ref_file(scratch, ref, pairs):
     return path
 
 
+DEFAULT_PARAMS = dict(scanN=3, scanMinN=0, scanLexN=6, scanPadN=1, scanPads=[0], scanTails=['\n'])
+
+
 def scan_files(sc, ref, pairs, **params):
+    p = dict(DEFAULT_PARAMS)
+    p.update(params)
+    params = p
     reffile = gen_ref_file(sc, ref, pairs)
     par = gen_params(sc, 'zz_verif_params.go', **params)
     return [os.path.join(HDIR, 'zz_verif_c05.go'), os.path.join(HDIR, 'zz_verif_scan.go'), reffile, par]
@@ -92,7 +103,7 @@ def run(tier, rep):
         pairs = candidate_relation(ref, hint)
         rep.coverage['relation_pairs'] = len(pairs)
         rep.coverage['reference_states'] = ref.n
-        params = dict(scanN=4 if thorough else 3, scanMinN=0, scanHalf=4, scanLexN=8 if thorough else 6)
+        params = dict(scanN=4 if thorough else 3, scanMinN=0, scanLexN=8 if thorough else 6)
         files = scan_files(sc, ref, pairs, **params)
         # S1: transition function and labels, all states x all int32 runes
         res = run_gosym(base_cfg(files, 'harnessC05Bisim', tier), sc, 's1')
